@@ -7,6 +7,9 @@
    `git check-ignore`, not proved. *)
 From XcpModel Require Import Base Backup Paths Walker.
 From XcpProofs Require Import WalkerProofs.
+From XcpModel Require Import Extracted.
+From XcpProofs Require Import ExtractedOk.
+From Coq Require Import String.
 
 (* the walk = process the selected entries, in order, until the first failure *)
 Theorem C17_walk_is_process_of_selected : forall cfg keep dex t r,
@@ -58,8 +61,15 @@ Example C17_nonvacuous :
   map (fun e => fst (fst e)) (sel_entries keep false [] t) = [[]; [[97]]; [[101]]].
 Proof. vm_compute. reflexivity. Qed.
 
+(* ---- tie to the current source (translator): the matcher is built per source and prunes the walk ---- *)
+Theorem C17_src_filter_and_per_source_matcher :
+  nth 3 x_walker_iterator ""%string = "filter_entry(|e|ignore_filter(e,&gitignore))"%string /\
+  nth 2 x_walker_source_prelude ""%string = "letgitignore=parse_ignore(&source,config)?;"%string.
+Proof. split; reflexivity. Qed.
+
 Print Assumptions C17_walk_is_process_of_selected.
 Print Assumptions C17_pruned_walk_spec.
 Print Assumptions C17_selected_iff_no_ignored_ancestor.
 Print Assumptions C17_no_flag_no_filter.
 Print Assumptions C17_root_never_filtered.
+Print Assumptions C17_src_filter_and_per_source_matcher.
